@@ -7,6 +7,10 @@ equivalent for all inputs iff their masks are equal (atoms are in general positi
 comparison with the property's formula is insensitive to algebraic rewrites (``a - b`` vs
 ``a.difference(b)``, reordering, renaming) and sensitive to every inequivalent edit.
 
+Python's *object* semantics of sets are modelled too: a name bound with ``a = b`` aliases the same
+set object, and the in-place operations (``|=``, ``-=``, ``&=``, ``.update``, ``.add``, ...) mutate
+that object for every alias, while ``set(b)``, ``a | b`` etc. allocate a new one.
+
 Nothing is executed: this is an abstract interpreter over a finite domain with explicit transfer
 functions; syntax outside the modelled subset raises ``Unmodelled`` (=> ANALYSIS-ERROR).
 """
@@ -27,6 +31,17 @@ class Opaque(object):
 
     def __repr__(self):
         return '<Opaque %s %s>' % (self.tag or '', norm(self.expr)[:40])
+
+
+class SV(object):
+    """A mutable set *object* of the analysed program; ``m`` is its current mask."""
+    __slots__ = ('m',)
+
+    def __init__(self, m):
+        self.m = m
+
+    def __repr__(self):
+        return '<SV %x>' % self.m
 
 
 class Universe(object):
@@ -52,12 +67,12 @@ class Universe(object):
         return self.full & ~m
 
     def formula(self, m):
-        """Human-readable DNF-ish rendering (for reports)."""
+        if not isinstance(m, int):
+            return repr(m)
         if m == 0:
             return '{}'
         if m == self.full:
             return 'ALL'
-        # try to express as union of atom-conjunctions (prime-implicant-free, just minterms grouped)
         terms = []
         for mt in range(self.n):
             if m >> mt & 1:
@@ -68,6 +83,8 @@ class Universe(object):
 
     def diff_witness(self, got, want):
         """A valuation on which two masks differ, as text."""
+        if not isinstance(got, int):
+            return 'not a set value: %r' % (got,)
         x = got ^ want
         for mt in range(self.n):
             if x >> mt & 1:
@@ -77,87 +94,160 @@ class Universe(object):
         return 'equal'
 
 
+def plain(v):
+    """Convert internal values to plain ones: SV -> int mask, containers recursively."""
+    if isinstance(v, SV):
+        return v.m
+    if isinstance(v, tuple):
+        return tuple(plain(x) for x in v)
+    if isinstance(v, list):
+        return [plain(x) for x in v]
+    if isinstance(v, dict):
+        return dict((k, plain(x)) for k, x in v.items())
+    return v
+
+
+def wrap(v):
+    """Model results may be plain ints: give each its own set object."""
+    if isinstance(v, bool):
+        return v
+    if isinstance(v, int):
+        return SV(v)
+    if isinstance(v, tuple):
+        return tuple(wrap(x) for x in v)
+    if isinstance(v, list):
+        return [wrap(x) for x in v]
+    if isinstance(v, dict):
+        return dict((k, wrap(x)) for k, x in v.items())
+    return v
+
+
+class _Env(object):
+    """dict-like view: reads give plain values, writes accept plain values / Opaque."""
+
+    def __init__(self, store):
+        self._s = store
+
+    def __getitem__(self, k):
+        return plain(self._s[k])
+
+    def get(self, k, d=None):
+        return plain(self._s[k]) if k in self._s else d
+
+    def __setitem__(self, k, v):
+        self._s[k] = wrap(v)
+
+    def __contains__(self, k):
+        return k in self._s
+
+    def items(self):
+        return [(k, plain(v)) for k, v in self._s.items()]
+
+    def raw(self, k):
+        return self._s.get(k)
+
+
 class SetInterp(object):
     """Evaluates expressions / executes straight-line statements over a Universe."""
 
     def __init__(self, uni, env=None, elems=None, model=None):
         self.u = uni
-        self.env = dict(env or {})
+        self._store = {}
+        for k, v in (env or {}).items():
+            self._store[k] = wrap(v)
+        self.env = _Env(self._store)
         self.elems = dict(elems or {})    # normalised element text -> mask (singletons)
-        self.model = model                # callable(interp, call_expr) -> value or None
-        self.log = []
+        self.model = model                # callable(interp, expr) -> plain value or None
 
-    # -- expressions -------------------------------------------------------
+    # -- public (plain values) ----------------------------------------------
+    def eval(self, e):
+        return plain(self._ev(e))
+
+    def try_eval(self, e):
+        try:
+            return self.eval(e)
+        except Unmodelled:
+            return Opaque(e)
+
+    def as_set(self, v, expr):
+        v = plain(v)
+        if isinstance(v, int) and not isinstance(v, bool):
+            return v
+        raise Unmodelled('expression %s is not a set value (%r)' % (norm(expr), v))
+
+    def tracked(self, name):
+        return isinstance(self._store.get(name), (SV, tuple, list, dict))
+
+    # -- internals -------------------------------------------------------------
     def elem(self, e):
         key = norm(e)
         if key in self.elems:
             return self.elems[key]
-        if isinstance(e, ast.Name) and isinstance(self.env.get(e.id), int) and e.id in self.elems:
-            return self.elems[e.id]
         raise Unmodelled('set element %s is not a known symbolic element' % key)
 
-    def as_set(self, v, expr):
-        if isinstance(v, int):
-            return v
-        raise Unmodelled('expression %s is not a set value (%r)' % (norm(expr), v))
+    def _mask(self, e):
+        return self.as_set(self._ev(e), e)
 
-    def eval(self, e):
-        if self.model is not None and isinstance(e, (ast.Call, ast.Attribute, ast.Subscript)):
-            r = self.model(self, e)
-            if r is not None:
-                return r
+    def _ev(self, e):
+        """-> SV (possibly an existing object = alias) | Opaque | tuple/list/dict of those."""
         if isinstance(e, ast.Name):
-            if e.id in self.env:
-                return self.env[e.id]
+            if e.id in self._store:
+                return self._store[e.id]
             if self.model is not None:
                 r = self.model(self, e)
                 if r is not None:
-                    return r
+                    return wrap(r)
             raise Unmodelled('unbound name %s in set expression' % e.id)
+        if self.model is not None and isinstance(e, (ast.Call, ast.Attribute, ast.Subscript)):
+            r = self.model(self, e)
+            if r is not None:
+                return wrap(r)
         if isinstance(e, (ast.List, ast.Tuple, ast.Set)):
             m = 0
             for x in e.elts:
                 m |= self.elem(x)
-            return m
+            return SV(m)
         if isinstance(e, ast.Constant) and e.value in ((), None):
-            return 0
+            return SV(0)
         if isinstance(e, ast.BinOp):
-            l = self.eval(e.left)
-            r = self.eval(e.right)
-            if isinstance(l, list) and isinstance(r, list) and isinstance(e.op, ast.Add):
-                return l + r
-            l, r = self.as_set(l, e.left), self.as_set(r, e.right)
+            lv, rv = self._ev(e.left), self._ev(e.right)
+            if isinstance(lv, list) and isinstance(rv, list) and isinstance(e.op, ast.Add):
+                return lv + rv
+            l, r = self.as_set(lv, e.left), self.as_set(rv, e.right)
             if isinstance(e.op, ast.BitOr):
-                return l | r
+                return SV(l | r)
             if isinstance(e.op, ast.BitAnd):
-                return l & r
+                return SV(l & r)
             if isinstance(e.op, ast.Sub):
-                return l & self.u.neg(r)
+                return SV(l & self.u.neg(r))
             if isinstance(e.op, ast.BitXor):
-                return l ^ r
+                return SV(l ^ r)
             raise Unmodelled('operator %s on sets' % type(e.op).__name__)
         if isinstance(e, ast.BoolOp) and isinstance(e.op, ast.Or):
             # "list(zip(*sigs)) or ((), ())" -- value-preserving default
-            return self.eval(e.values[0])
+            return self._ev(e.values[0])
         if isinstance(e, ast.Call):
             f = e.func
             if isinstance(f, ast.Name) and f.id in ('set', 'frozenset', 'list', 'tuple', 'sorted'):
                 if not e.args:
-                    return 0
-                return self.eval(e.args[0])
+                    return SV(0)
+                v = self._ev(e.args[0])
+                if isinstance(v, SV):
+                    return SV(v.m)          # a *copy*
+                return v
             if isinstance(f, ast.Attribute):
                 if norm(f) == 'set.union' and len(e.args) == 1 and isinstance(e.args[0], ast.Starred):
-                    v = self.eval(e.args[0].value)
+                    v = self._ev(e.args[0].value)
                     if isinstance(v, list):
                         m = 0
                         for x in v:
                             m |= self.as_set(x, e)
-                        return m
+                        return SV(m)
                     raise Unmodelled('set.union(*%s)' % norm(e.args[0].value))
                 if f.attr in ('union', 'difference', 'intersection', 'symmetric_difference', 'copy'):
-                    cur = self.as_set(self.eval(f.value), f.value)
+                    cur = self._mask(f.value)
                     for a in e.args:
-                        r = self.as_set(self.eval(a), a)
+                        r = self._mask(a)
                         if f.attr == 'union':
                             cur |= r
                         elif f.attr == 'difference':
@@ -166,11 +256,12 @@ class SetInterp(object):
                             cur &= r
                         else:
                             cur ^= r
-                    return cur
+                    return SV(cur)
                 if f.attr in ('keys',) and not e.args:
-                    return self.eval(f.value)
+                    v = self._ev(f.value)
+                    return SV(v.m) if isinstance(v, SV) else v
                 if f.attr == 'values' and not e.args:
-                    v = self.eval(f.value)
+                    v = self._ev(f.value)
                     if isinstance(v, dict):
                         return list(v.values())
             raise Unmodelled('call %s' % norm(e))
@@ -179,12 +270,12 @@ class SetInterp(object):
             for k, v in zip(e.keys, e.values):
                 if not isinstance(k, ast.Constant):
                     raise Unmodelled('dict key')
-                out[k.value] = self.eval(v)
+                out[k.value] = self._ev(v)
             return out
         if isinstance(e, (ast.ListComp, ast.SetComp, ast.GeneratorExp)):
-            return self._comp(e)
+            return SV(self._comp(e))
         if isinstance(e, ast.Starred):
-            return self.eval(e.value)
+            return self._ev(e.value)
         raise Unmodelled('expression %s' % norm(e))
 
     def _comp(self, e):
@@ -193,14 +284,14 @@ class SetInterp(object):
         g = e.generators[0]
         if not (isinstance(g.target, ast.Name) and isinstance(e.elt, ast.Name) and e.elt.id == g.target.id):
             raise Unmodelled('comprehension that transforms its elements: %s' % norm(e))
-        cur = self.as_set(self.eval(g.iter), g.iter)
+        cur = self._mask(g.iter)
         for c in g.ifs:
             cur &= self._filter(c, g.target.id)
         return cur
 
     def _filter(self, c, var):
         if isinstance(c, ast.Compare) and len(c.ops) == 1 and isinstance(c.left, ast.Name) and c.left.id == var:
-            r = self.as_set(self.eval(c.comparators[0]), c.comparators[0])
+            r = self._mask(c.comparators[0])
             if isinstance(c.ops[0], ast.In):
                 return r
             if isinstance(c.ops[0], ast.NotIn):
@@ -218,7 +309,7 @@ class SetInterp(object):
     # -- statements ----------------------------------------------------------
     def bind(self, target, value, st):
         if isinstance(target, ast.Name):
-            self.env[target.id] = value
+            self._store[target.id] = value       # aliasing: the same SV object
             return
         if isinstance(target, (ast.Tuple, ast.List)):
             if isinstance(value, (tuple, list)) and len(value) == len(target.elts):
@@ -232,38 +323,35 @@ class SetInterp(object):
             raise Unmodelled('cannot unpack %r in %s' % (value, norm(st)))
         raise Unmodelled('assignment target %s' % norm(target))
 
-    def try_eval(self, e):
+    def _try_ev(self, e):
         try:
-            return self.eval(e)
+            return self._ev(e)
         except Unmodelled:
             return Opaque(e)
 
-    def tracked(self, name):
-        return isinstance(self.env.get(name), (int, tuple, list, dict))
-
     def exec_stmt(self, st):
         if isinstance(st, ast.Assign):
-            v = self.try_eval(st.value)
+            v = self._try_ev(st.value)
             for t in st.targets:
                 self.bind(t, v, st)
             return
         if isinstance(st, ast.AugAssign) and isinstance(st.target, ast.Name):
-            cur = self.env.get(st.target.id)
-            if not isinstance(cur, int):
-                self.env[st.target.id] = Opaque(st)
+            cur = self._store.get(st.target.id)
+            if not isinstance(cur, SV):
+                self._store[st.target.id] = Opaque(st)
                 return
-            r = self.as_set(self.eval(st.value), st.value)
+            r = self._mask(st.value)
+            # in-place on the set object: visible through every alias
             if isinstance(st.op, ast.BitOr):
-                cur |= r
+                cur.m |= r
             elif isinstance(st.op, ast.BitAnd):
-                cur &= r
+                cur.m &= r
             elif isinstance(st.op, ast.Sub):
-                cur &= self.u.neg(r)
+                cur.m &= self.u.neg(r)
             elif isinstance(st.op, ast.BitXor):
-                cur ^= r
+                cur.m ^= r
             else:
                 raise Unmodelled('augmented %s' % norm(st))
-            self.env[st.target.id] = cur
             return
         if isinstance(st, ast.Expr):
             v = st.value
@@ -271,34 +359,32 @@ class SetInterp(object):
                 return
             if isinstance(v, ast.Call) and isinstance(v.func, ast.Attribute) and isinstance(v.func.value, ast.Name):
                 name, meth = v.func.value.id, v.func.attr
-                cur = self.env.get(name)
-                if isinstance(cur, int):
+                cur = self._store.get(name)
+                if isinstance(cur, SV):
                     if meth in ('update', 'difference_update', 'intersection_update', 'symmetric_difference_update'):
                         for a in v.args:
-                            r = self.as_set(self.eval(a), a)
+                            r = self._mask(a)
                             if meth == 'update':
-                                cur |= r
+                                cur.m |= r
                             elif meth == 'difference_update':
-                                cur &= self.u.neg(r)
+                                cur.m &= self.u.neg(r)
                             elif meth == 'intersection_update':
-                                cur &= r
+                                cur.m &= r
                             else:
-                                cur ^= r
-                        self.env[name] = cur
+                                cur.m ^= r
                         return
                     if meth == 'add':
-                        self.env[name] = cur | self.elem(v.args[0])
+                        cur.m |= self.elem(v.args[0])
                         return
                     if meth in ('discard', 'remove'):
-                        self.env[name] = cur & self.u.neg(self.elem(v.args[0]))
+                        cur.m &= self.u.neg(self.elem(v.args[0]))
                         return
                     if meth == 'clear':
-                        self.env[name] = 0
+                        cur.m = 0
                         return
                     raise Unmodelled('method %s on tracked set %s' % (meth, name))
             # a call that does not involve tracked names is irrelevant (print, logging...)
             if any(isinstance(n, ast.Name) and self.tracked(n.id) for n in ast.walk(v)):
-                # reading a tracked set in a non-mutating call is harmless
                 if isinstance(v, ast.Call) and not (isinstance(v.func, ast.Attribute) and isinstance(v.func.value, ast.Name)
                                                      and self.tracked(v.func.value.id)):
                     return
@@ -317,7 +403,7 @@ class SetInterp(object):
             if any(self.tracked(s) for s in stores):
                 raise Unmodelled('conditional update of tracked sets: %s' % norm(st.test))
             for s in stores:
-                self.env[s] = Opaque(st)
+                self._store[s] = Opaque(st)
             return
         if isinstance(st, (ast.Raise, ast.Pass, ast.Assert, ast.Return)):
             return
